@@ -5,6 +5,7 @@ pub mod c11_framing;
 pub mod c12_sequence;
 pub mod c14_renewal;
 pub mod c15_handshake;
+pub mod c18_trust;
 pub mod c30_browse;
 pub mod c32_attributes;
 pub mod c33_swarm;
@@ -30,6 +31,7 @@ pub fn all() -> Vec<Box<dyn Scenario>> {
     v.push(Box::new(c10_memory::C10));
     v.push(Box::new(c12_sequence::C12));
     v.push(Box::new(c14_renewal::C14));
+    v.push(Box::new(c18_trust::C18));
     v.push(Box::new(c30_browse::C30));
     v.push(Box::new(c32_attributes::C32));
     v.push(Box::new(c33_swarm::C33));
